@@ -1,6 +1,7 @@
 import Adlt.Lc.Drv
 import Adlt.Dlt.Drv
 import Adlt.Sort.Drv
+import Adlt.Chain.Drv
 /-! `driver <area>`: reads `case \t implobs` lines on stdin, prints one result line each. -/
 def main (args : List String) : IO UInt32 := do
   let stdin ← IO.getStdin
@@ -8,4 +9,5 @@ def main (args : List String) : IO UInt32 := do
   | ["lc"] => Util.loop stdin Lcm.doLine; return 0
   | ["dp"] => Util.loop stdin Dp.doLine; return 0
   | ["srt"] => Util.loop stdin Srt.doLine; return 0
+  | ["chn"] => Util.loop stdin Chn.doLine; return 0
   | _ => IO.eprintln "usage: driver <area>"; return 2
